@@ -6,4 +6,4 @@ exec 9>.work/build.lock
 flock 9
 /venv/bin/python translate/kernels.py /repo coq/theories/Gen
 /venv/bin/python -c "import sys; sys.path.insert(0,'harness'); import framework; framework.write_coqproject()"
-cd coq && { [ Makefile -nt _CoqProject ] || coq_makefile -f _CoqProject -o Makefile >/dev/null; } && timeout 3000 make -k -j16 2>&1 | grep -E "Error|error|^File|\*\*\*" -A12 | head -${1:-60}
+cd coq && { [ Makefile -nt _CoqProject ] || coq_makefile -f _CoqProject -o Makefile >/dev/null; } && ( ulimit -v 12000000; timeout 3000 make -k -j16 COQC="timeout 240 coqc" 2>&1 ) | grep -E "Error|error|^File|\*\*\*" -A12 | head -${1:-60}
